@@ -241,6 +241,32 @@ def const_expr(rng, d):
     return g.term(d)
 
 
+def special_mixed_expr(rng):
+    """a constant sub-expression with a SPECIAL value (NaN, +-inf, 0, -0, 1) combined by + - * / with an operand that is not a
+    numeric constant (variable, call, pop, element, string/boolean/null literal), in either order or inside a list"""
+    S = rng.choice([bin_('divide', num(0), num(0)), bin_('divide', num(1), num(0)), bin_('divide', neg(num(1)), num(0)),
+                    num(0), bin_('multiply', num(0), neg(num(5))), num(1), num(5),
+                    bin_('minus', bin_('divide', num(1), num(0)), bin_('divide', num(1), num(0))),
+                    bin_('multiply', bin_('divide', num(1), num(0)), num(0))])
+    g = rock.Gen(rng, names=[sv('xx'), sv('yy')], funcs=[sv('ff')], max_depth=1)
+    R = rng.choice([v(sv('xx')), v(sv('yy')), st('abc'), st('2'), TRUE, NULL, MYST, call(sv('ff'), num(2)), call(sv('ff'), st('q')),
+                    ('popx', v(sv('zz'))), sub(v(sv('zz')), num(0))])
+    op = rng.choice(['plus', 'minus', 'multiply', 'divide'])
+    low = op in ('plus', 'minus')
+    if S[0] == 'bin' and S[1] in ('plus', 'minus') and not low:
+        op, low = 'plus', True
+    r = rng.random()
+    if r < 0.5:
+        return ('bin', op, S, [R])
+    if r < 0.7:
+        return ('bin', op, S, [num(rng.randint(0, 3)), R])
+    if r < 0.8:
+        return ('bin', op, S, [R, num(rng.randint(0, 3))])
+    if low:
+        return ('bin', op, R, [S])
+    return ('bin', op, R, [num(0), S] if S[0] == 'lit' else [num(0)])
+
+
 def reads(e):
     t = e[0]
     if t == 'bin':
@@ -263,15 +289,19 @@ def c17(run):
     rng = run.rng
     n = run.n(3000, 120000)
     run.rule = ('random expressions: constant ones (number literals, unary minus, + - * / with list operands, nested to depth 4) and '
-                'non-constant ones (all operators, variables, pronouns, subscripts, calls, pops, every literal kind); the folders are run '
+                'non-constant ones (all operators, variables, pronouns, subscripts, calls, pops, every literal kind), and constants of special '
+                'value (NaN, +-inf, 0, -0) combined with a non-constant operand in either order or in a list; the folders are run '
                 'through the public API and the same expression is executed by `say`; the printed text must be the Display of the folded '
                 'value (numbers through the implementation\'s own formatter), constants must fold, expressions that read must not; '
                 'non-trivial = at least 2 operators; distinct by expression text')
     cases = []
     names = [sv('xx'), sv('yy')]
     for i in range(n):
-        if rng.random() < 0.5:
+        r = rng.random()
+        if r < 0.45:
             e = const_expr(rng, rng.randint(0, 4))
+        elif r < 0.6:
+            e = special_mixed_expr(rng)
         else:
             g = rock.Gen(rng, names=names, funcs=[sv('ff')], max_depth=rng.randint(0, 3))
             e = g.expr()
@@ -280,7 +310,7 @@ def c17(run):
         cases.append((e, text))
     reqs = ['fold ' + hx(t) for _, t in cases]
     m, im = run.tie(reqs, functional=True, desc=lambda i: {'expression': cases[i][1]})
-    pre = 'put 3 into xx\nput "s" into yy\nff takes pp\ngive back pp\n\n'
+    pre = 'put 3 into xx\nput "s" into yy\nrock zz with 7, 8, 9\nff takes pp\ngive back pp\n\n'
     rreqs = [run_req(pre + t) for _, t in cases]
     rm, rim = run.tie(rreqs, proj=proj_run, functional=True, desc=lambda i: {'program': pre + cases[i][1]})
     fmt_reqs, fmt_idx = [], []
